@@ -569,10 +569,13 @@ def id_alloc(prog, ex, P, tier):
 
 # ---- metrics (C20) ------------------------------------------------------------------------------
 def metrics_scn(prog, ex, P, tier):
-    cause = pick(ex, ["keep", "stop", "kill"], "cause")
+    cause = pick(ex, ["keep", "stop", "kill", "handler_panic"], "cause")
     s = Sim(prog, ex)
     w = s.w
-    s.spawn_actor(Script("A", handler_yields={"*": 1}), 2)
+    sc0 = Script("A", handler_yields={"*": 1})
+    if cause == "handler_panic":
+        sc0.handler_panics = {2}
+    s.spawn_actor(sc0, 2)
     s.client("c1", [("tell", "A", 1), ("ask", "A", 2), ("tell", "A", 3)], ["A"], keep_refs=True)
     if cause == "stop":
         s.client("cs", [("stop", "A")], ["A"])
@@ -691,7 +694,7 @@ def graph_edges(s):
 def deadlock_cycles(prog, ex, P, tier):
     """ask cycles of length 1..3 with the closing ask in a handler / on_start / on_run / on_stop,
     plain ask or ask_with_timeout, every creation order of the edges (the scheduler's choice)"""
-    shape = pick(ex, ["self-handler", "self-on_run", "2cycle", "2cycle-timeout", "3cycle", "2cycle-on_stop"], "shape")
+    shape = pick(ex, ["self-handler", "self-on_run", "2cycle", "2cycle-timeout", "3cycle", "2cycle-on_stop", "2cycle-full-mailbox"], "shape")
     s = Sim(prog, ex)
     w = s.w
     A, B, C = Script("A"), Script("B"), Script("C")
@@ -706,6 +709,12 @@ def deadlock_cycles(prog, ex, P, tier):
         A.handler_actions = {1: [(k, "B", 11) + ((50,) if k == "ask_t" else ())]}
         B.handler_actions = {11: [(k, "A", 12) + ((50,) if k == "ask_t" else ())]}
         names = ["A", "B"]
+    elif shape == "2cycle-full-mailbox":
+        # B is inside its handler for 5 (suspended once), a tell is queued behind it in B's
+        # capacity-1 mailbox, so A's ask to B has to wait for a slot; then B's handler asks A
+        A.handler_actions = {1: [("ask", "B", 11)]}
+        B.handler_actions = {5: [("yield",), ("yield",), ("ask", "A", 12)]}
+        names = ["A", "B"]
     elif shape == "2cycle-on_stop":
         # A is stopped; its on_stop asks B; B's handler for that request asks A back
         A.on_stop_actions = [("ask", "B", 12)]
@@ -718,12 +727,15 @@ def deadlock_cycles(prog, ex, P, tier):
         names = ["A", "B", "C"]
     for n, sc in (("A", A), ("B", B), ("C", C)):
         if n in names:
-            s.spawn_actor(sc, 2)
+            s.spawn_actor(sc, 1 if (shape == "2cycle-full-mailbox" and n == "B") else 2)
     for n in names:
         for m in names:
             s.give_ref(n, m)
     if shape == "2cycle-on_stop":
         s.client("c1", [("stop", "A")], ["A"])
+    elif shape == "2cycle-full-mailbox":
+        s.client("c0", [("tell", "B", 5), ("tell", "B", 6)], ["B"])
+        s.client("c1", [("yield",), ("ask", "A", 1)], ["A"])
     else:
         s.client("c1", [("ask", "A", 1)] if shape != "self-on_run" else [("yield",)], ["A"])
     for n in names:
@@ -733,7 +745,11 @@ def deadlock_cycles(prog, ex, P, tier):
     panics = [e for e in tr.ev if e["ev"] == "panic"]
     dl = [e for e in panics if "Deadlock detected" in str(e.get("msg")) or "eadlock" in str(e.get("msg"))]
     if P == "C14":
-        ex.check("C14", len(dl) >= 1, "an ask cycle (%s) was closed without the deadlock panic" % shape)
+        if shape != "2cycle-full-mailbox":
+            ex.check("C14", len(dl) >= 1, "an ask cycle (%s) was closed without the deadlock panic" % shape)
+        # (in the full-mailbox shape the two asks race: a cycle - and hence the panic - exists only
+        # in the schedules where both are in flight together; what must hold in every schedule is
+        # that nobody is left waiting)
         # nobody waits for ever: every task reached an end state, every client op completed
         # (actors that hold references to each other legitimately stay alive and idle; what must
         # not happen is a hook that was entered and is still waiting at quiescence)
@@ -958,10 +974,30 @@ def projection(tr):
 
 
 def feature_suite(prog, ex, P, tier):
-    v = pick(ex, ["tell-ask-drop", "two-clients-stop", "kill", "on_run", "timeout", "on_run_err", "handler_panic", "on_start_err"], "variant")
+    v = pick(ex, ["tell-ask-drop", "two-clients-stop", "kill", "on_run", "timeout", "on_run_err", "handler_panic", "on_start_err", "peer-asks"], "variant")
     s = Sim(prog, ex)
     w = s.w
     sc = Script("A")
+    if v == "peer-asks":
+        # A's handler asks B with a timeout that expires (B is slow), later B's handler asks A:
+        # no ask cycle at any time
+        sc.handler_actions = {1: [("ask_t", "B", 11, 3)]}
+        sb = Script("B", handler_yields={11: "tick"})
+        sb.handler_actions = {5: [("ask", "A", 12)]}
+        s.spawn_actor(sc, 2)
+        s.spawn_actor(sb, 2)
+        s.give_ref("A", "B")
+        s.give_ref("B", "A")
+        s.client("c1", [("ask", "A", 1), ("ask", "B", 5)], ["A", "B"])
+        s.drop_main("A")
+        s.drop_main("B")
+        ticks = [1]
+        s.extra_actions.append((lambda: ticks[0] > 0 and any(e["ev"] == "hook_enter" and e.get("msg") == 11 for e in ex.events),
+                                lambda: (ticks.__setitem__(0, ticks[0] - 1), w.advance(5)), "clock-advance"))
+        s.run(120)
+        tr = finish(ex, s)
+        ex.projection = projection(tr)
+        return
     cap = 1
     if v == "on_run":
         sc.on_run = [("true", 1), ("false", 0)]
